@@ -64,6 +64,13 @@ Theorem C11_literal_paths_only_plain :
 Proof. exact gen_literal_paths_only_plain. Qed.
 Print Assumptions C11_literal_paths_only_plain.
 
+(* call sites: Text.Matches / File().Name.Matches / File().PkgPath.Matches return exactly the compiled pattern's verdict
+   on the node text / base file name / package path, and the loader hands over what textmatch.Compile / regexp.Compile
+   returned (read off filters.go and ir_loader.go on this run) *)
+Theorem C11_predicate_call_sites : forallb snd gen_match_sites = true /\ (7 <= List.length gen_match_sites)%nat.
+Proof. exact match_sites_hold. Qed.
+Print Assumptions C11_predicate_call_sites.
+
 (* byte strings vs rune sequences (UTF-8 self-synchronisation), proved, not assumed *)
 Theorem C11_contains_bytes_iff_runes :
   forall rs b, bytes_ok b -> Forall plain_rune rs ->
